@@ -8,7 +8,7 @@
    The correspondence shards (tie H) evaluate exactly these definitions against the implementation. *)
 From Coq Require Import List Bool ZArith NArith String Lia.
 From Molli Require Import Common.ParseStr Common.ParseStrFacts Model.Parse Model.XyzText Proofs.Parse Proofs.XyzText Proofs.ParseRecords
-  Proofs.ParseSections.
+  Proofs.ParseSections Proofs.ParseAttr.
 From Molli Require Import Gen.XyzElements.
 Import ListNotations.
 Local Open Scope list_scope.
@@ -405,3 +405,99 @@ Proof.
       * constructor.
     + do 2 eexists. split; vm_compute; reflexivity.
 Qed.
+
+(* ---------------------------------------------------------------- sections whose length a count of their own declares *)
+(* UNITY_ATOM_ATTR / UNITY_BOND_ATTR: `<id> <n_attr>` followed by exactly n_attr `<name> <value>` lines.  The ATOM / BOND counts
+   of the header are met whatever happens in there.  `pre` is ANY prefix that leaves the reader inside such a section. *)
+Theorem C10_unity_atom_group_short_mol2 : forall pre v hd idx n als tl, m2run true m2init pre = MRun MUAtom v ->
+  tripos_name (strip hd) = None -> two_ints (strip hd) = Some (idx, n) -> Forall two_tok als ->
+  (Z.of_nat (List.length als) < n)%Z -> closes tl ->
+  exists e, read_mol2 true (pre ++ hd :: als ++ tl) = Err e.
+Proof. exact unity_atom_group_short_read. Qed.
+Theorem C10_unity_atom_attr_deleted_mol2 : forall pre v hd idx n als i tl, m2run true m2init pre = MRun MUAtom v ->
+  tripos_name (strip hd) = None -> two_ints (strip hd) = Some (idx, n) -> Forall two_tok als ->
+  Z.of_nat (List.length als) = n -> (i < List.length als)%nat -> closes tl ->
+  exists e, read_mol2 true (pre ++ hd :: del_nth i als ++ tl) = Err e.
+Proof. exact unity_atom_attr_deleted_read. Qed.
+Print Assumptions C10_unity_atom_attr_deleted_mol2.
+Theorem C10_unity_atom_attr_deleted_before_group_mol2 : forall pre v hd idx n als i g y rest, m2run true m2init pre = MRun MUAtom v ->
+  tripos_name (strip hd) = None -> two_ints (strip hd) = Some (idx, n) -> Forall two_tok als ->
+  Z.of_nat (List.length als) = n -> (i < List.length als)%nat ->
+  two_tok g -> tripos_name (strip y) = None -> two_ints (strip y) = None ->
+  exists e, read_mol2 true (pre ++ hd :: del_nth i als ++ g :: y :: rest) = Err e.
+Proof. exact unity_atom_attr_deleted_before_group_read. Qed.
+Print Assumptions C10_unity_atom_attr_deleted_before_group_mol2.
+Theorem C10_unity_atom_header_bad_mol2 : forall pre v l rest, m2run true m2init pre = MRun MUAtom v ->
+  tripos_name (strip l) = None -> two_ints (strip l) = None ->
+  exists e, read_mol2 true (pre ++ l :: rest) = Err e.
+Proof. exact unity_atom_header_bad_read. Qed.
+Theorem C10_unity_bond_group_short_mol2 : forall pre v hd idx n als tl, m2run true m2init pre = MRun MUBond v ->
+  tripos_name (strip hd) = None -> two_ints (strip hd) = Some (idx, n) -> Forall two_tok als ->
+  (Z.of_nat (List.length als) < n)%Z -> closes tl ->
+  exists e, read_mol2 true (pre ++ hd :: als ++ tl) = Err e.
+Proof. exact unity_bond_group_short_read. Qed.
+Theorem C10_unity_bond_attr_deleted_mol2 : forall pre v hd idx n als i tl, m2run true m2init pre = MRun MUBond v ->
+  tripos_name (strip hd) = None -> two_ints (strip hd) = Some (idx, n) -> Forall two_tok als ->
+  Z.of_nat (List.length als) = n -> (i < List.length als)%nat -> closes tl ->
+  exists e, read_mol2 true (pre ++ hd :: del_nth i als ++ tl) = Err e.
+Proof. exact unity_bond_attr_deleted_read. Qed.
+Print Assumptions C10_unity_bond_attr_deleted_mol2.
+Theorem C10_unity_bond_attr_deleted_before_group_mol2 : forall pre v hd idx n als i g y rest, m2run true m2init pre = MRun MUBond v ->
+  tripos_name (strip hd) = None -> two_ints (strip hd) = Some (idx, n) -> Forall two_tok als ->
+  Z.of_nat (List.length als) = n -> (i < List.length als)%nat ->
+  two_tok g -> tripos_name (strip y) = None -> two_ints (strip y) = None ->
+  exists e, read_mol2 true (pre ++ hd :: del_nth i als ++ g :: y :: rest) = Err e.
+Proof. exact unity_bond_attr_deleted_before_group_read. Qed.
+Theorem C10_unity_bond_header_bad_mol2 : forall pre v l rest, m2run true m2init pre = MRun MUBond v ->
+  tripos_name (strip l) = None -> two_ints (strip l) = None ->
+  exists e, read_mol2 true (pre ++ l :: rest) = Err e.
+Proof. exact unity_bond_header_bad_read. Qed.
+
+(* the hypotheses are satisfiable: a molecule up to its UNITY_ATOM_ATTR record leaves the reader inside the section; the group
+   `1 2` / `charge 1` / `tag x9` with either attribute line deleted is refused in front of the closing TRIPOS record, at the end
+   of the text, and in front of another group with an attribute.  What is NOT refused is the format limit: an attribute line
+   deleted in front of a group that declares no attribute, followed by a further well-formed group -- the damaged text is a
+   well-formed section itself (recorded known finding optional-section:damaged-text-still-well-formed). *)
+Definition ex_unity_pre : list str := map s2l
+  ["@<TRIPOS>MOLECULE"; "two"; "2 1 0 0 0"; "SMALL"; "NO_CHARGES"; ""; "@<TRIPOS>ATOM";
+   "     1 N       0.000000     0.000000     0.000000 N.4        1 UNL1";
+   "     2 C       1.000000     0.000000     0.000000 C.3        1 UNL1"; "@<TRIPOS>UNITY_ATOM_ATTR"]%string.
+Definition ex_unity_hd : str := s2l "1 2".
+Definition ex_unity_attrs : list str := map s2l ["charge 1"; "tag x9"]%string.
+Definition ex_unity_bond : list str := map s2l ["@<TRIPOS>BOND"; "     1      1      2   1"]%string.
+Example C10_unity_nonvacuous :
+  (exists v, m2run true m2init ex_unity_pre = MRun MUAtom v) /\
+  (exists bs, read_mol2 true (ex_unity_pre ++ ex_unity_hd :: ex_unity_attrs ++ ex_unity_bond) = Ok bs) /\
+  (forall i, (i < 2)%nat -> exists e, read_mol2 true (ex_unity_pre ++ ex_unity_hd :: del_nth i ex_unity_attrs ++ ex_unity_bond) = Err e) /\
+  (forall i, (i < 2)%nat -> exists e, read_mol2 true (ex_unity_pre ++ ex_unity_hd :: del_nth i ex_unity_attrs ++ []) = Err e) /\
+  (forall i rest, (i < 2)%nat ->
+     exists e, read_mol2 true (ex_unity_pre ++ ex_unity_hd :: del_nth i ex_unity_attrs ++ s2l "2 1" :: s2l "color red" :: rest) = Err e).
+Proof.
+  assert (HF : Forall two_tok ex_unity_attrs) by (repeat constructor).
+  split; [|split; [|split; [|split]]].
+  - eexists. vm_compute. reflexivity.
+  - eexists. vm_compute. reflexivity.
+  - intros i Hi. eapply C10_unity_atom_attr_deleted_mol2 with (n := 2%Z); try reflexivity; try exact HF; try exact Hi.
+    right. do 2 eexists. split; [reflexivity|]. vm_compute. discriminate.
+  - intros i Hi. eapply C10_unity_atom_attr_deleted_mol2 with (n := 2%Z); try reflexivity; try exact HF; try exact Hi.
+    left. reflexivity.
+  - intros i rest Hi. eapply C10_unity_atom_attr_deleted_before_group_mol2 with (n := 2%Z); try reflexivity; try exact HF; exact Hi.
+Qed.
+Example C10_unity_format_limit : exists bs,
+  read_mol2 true (ex_unity_pre ++ del_nth 1 (map s2l ["1 1"; "charge 1"; "2 0"; "2 1"; "tag x9"]%string) ++ ex_unity_bond) = Ok bs.
+Proof. eexists. vm_compute. reflexivity. Qed.
+
+(* ---------------------------------------------------------------- records of one size: nothing of a record reaches the next *)
+(* the molecules of a multi-record text are the molecules of its records read one by one, in order -- whatever their sizes *)
+Theorem C10_records_one_by_one_xyz : forall P zero_ok vocab bs1 ls1 bs2 ls2 ms1 ms2,
+  xwf_text P bs1 ls1 -> xwf_text P bs2 ls2 ->
+  load_xyz_lines zero_ok vocab ls1 = Ok ms1 -> load_xyz_lines zero_ok vocab ls2 = Ok ms2 ->
+  load_xyz_lines zero_ok vocab (ls1 ++ ls2) = Ok (ms1 ++ ms2).
+Proof. exact load_xyz_concat. Qed.
+Print Assumptions C10_records_one_by_one_xyz.
+Theorem C10_records_one_by_one_mol2 : forall atype btype bs1 ls1 bs2 ls2 ms1 ms2,
+  m2wf_text bs1 ls1 -> m2wf_text bs2 ls2 -> bs1 <> [] -> bs2 <> [] ->
+  load_mol2_lines true atype btype ls1 = Ok ms1 -> load_mol2_lines true atype btype ls2 = Ok ms2 ->
+  load_mol2_lines true atype btype (ls1 ++ ls2) = Ok (ms1 ++ ms2).
+Proof. exact load_mol2_concat. Qed.
+Print Assumptions C10_records_one_by_one_mol2.
